@@ -368,7 +368,7 @@ def _eval_assuming(iv, g, bi, e, adt_path, fld, bound):
     return ev(e)
 
 
-@rule('BOUNDS', ['C06'], floor=112, thorough_configs=('nostd-xzlzip',))
+@rule('BOUNDS', ['C06'], floor={'def': 112, 'nostd-xzlzip': 101}, thorough_configs=('nostd-xzlzip',))
 def bounds(ctx):
     """Indexing into a table of fixed size cannot panic in decoder-reachable code: for every bounds-check
     assert whose length operand is a constant, the index is proven below that length by interval analysis
